@@ -135,12 +135,12 @@ func (in *Interp) vsymCall(name string, args []Value, c *ssa.CallCommon) []Value
 			o.slots[i] = in.newSym(fmt.Sprintf("%s[%d]", strArg(args[0]), i), s)
 		}
 		return one(&PtrV{obj: o})
-	case "UF1", "UF2", "UF3":
+	case "UF1", "UF2", "UF3", "UFMono1":
 		var ta []*Term
 		for _, a := range args[1:] {
 			ta = append(ta, a.(*Term))
 		}
-		return one(in.ackermann("uf:"+strArg(args[0]), ta))
+		return one(in.ackermannNamed(strArg(args[0]), ta, name == "UFMono1"))
 	case "LogStart":
 		in.logOn = true
 		in.acclog = nil
@@ -231,5 +231,42 @@ func (in *Interp) ackermann(name string, args []*Term) *Term {
 		in.axiom(ts.Implies(eq, ts.Eq(y, c.res)))
 	}
 	in.mathCalls[name] = append(in.mathCalls[name], mathCall{args, y})
+	return y
+}
+
+// ackermannNamed: uninterpreted function whose call table (arguments and result of every call)
+// is exported with the model, so that a native replay can interpolate the same function.
+func (in *Interp) ackermannNamed(name string, args []*Term, mono bool) *Term {
+	ts := in.ts
+	key := "ufn:" + name
+	for _, c := range in.mathCalls[key] {
+		same := len(c.args) == len(args)
+		for i := range args {
+			if same && c.args[i] != args[i] {
+				same = false
+			}
+		}
+		if same {
+			return c.res
+		}
+	}
+	k := len(in.mathCalls[key])
+	y := ts.Var(fmt.Sprintf("uf:%s:%d:res", name, k), in.floatSort())
+	for i, a := range args {
+		av := ts.Var(fmt.Sprintf("uf:%s:%d:arg%d", name, k, i), a.sort)
+		in.axiom(ts.Eq(av, a))
+	}
+	for _, c := range in.mathCalls[key] {
+		eq := ts.True()
+		for i := range args {
+			eq = ts.And(eq, ts.Eq(args[i], c.args[i]))
+		}
+		in.axiom(ts.Implies(eq, ts.Eq(y, c.res)))
+		if mono && len(args) == 1 {
+			in.axiom(ts.Implies(ts.FCmp("fle", args[0], c.args[0]), ts.FCmp("fle", y, c.res)))
+			in.axiom(ts.Implies(ts.FCmp("fle", c.args[0], args[0]), ts.FCmp("fle", c.res, y)))
+		}
+	}
+	in.mathCalls[key] = append(in.mathCalls[key], mathCall{args, y})
 	return y
 }
